@@ -506,6 +506,7 @@ pub struct Ctx {
     pub policy: Policy,
     pub abort: AtomicBool,
     pub expired: AtomicU32,
+    pub unsat: AtomicU32,
     pub holds: AtomicU32,
     pub log: bool,
     events: Mutex<Vec<Ev>>,
@@ -524,6 +525,7 @@ impl Ctx {
             policy,
             abort: AtomicBool::new(false),
             expired: AtomicU32::new(0),
+            unsat: AtomicU32::new(0),
             holds: AtomicU32::new(0),
             log,
             events: Mutex::new(Vec::new()),
@@ -663,6 +665,11 @@ fn hook(id: &'static str, arg: usize) {
                             break;
                         }
                         if ctx.abort.load(Ordering::SeqCst) {
+                            break;
+                        }
+                        // the peer already finished without reaching the point: schedule unsatisfiable, not a verdict
+                        if ctx.count(r.until_role, point_id("@done")) >= 1 {
+                            ctx.unsat.fetch_add(1, Ordering::SeqCst);
                             break;
                         }
                         spins += 1;
